@@ -64,6 +64,18 @@ def digest(text):
 # --------------------------------------------------------------------------
 # program model
 
+def argof(call, param):
+    """the argument a call binds to the named parameter of a library callable: by keyword, or by position through the
+    library-wide signature table (calls arrive in positional form where the keywords continued the positional prefix: N19)"""
+    for k in call.keywords:
+        if k.arg == param: return k.value
+    from . import normalise as _nz
+    fn = call.func.id if isinstance(call.func, ast.Name) else (call.func.attr if isinstance(call.func, ast.Attribute) else None)
+    sig = _nz.LIBRARY_SIGNATURES.get(fn)
+    if sig and param in sig and sig.index(param) < len(call.args): return call.args[sig.index(param)]
+    return None
+
+
 def srcline(n):
     """line of the node in the repository source (the tree itself is renumbered, see renumber())"""
     return getattr(n, '_srcline', getattr(n, 'lineno', 0))
@@ -186,7 +198,7 @@ def _normalised_tree(name, src, path, sha, store=True):
         here = os.path.dirname(os.path.abspath(__file__))
         for f in ('normalise.py', 'core.py'):
             with open(os.path.join(here, f), 'rb') as fh: h.update(fh.read())
-        h.update(repr((sorted(nz.LIBRARY_METHODS), sorted(nz.LIBRARY_PROPERTIES), sys.version_info[:2])).encode())
+        h.update(repr((sorted(nz.LIBRARY_METHODS), sorted(nz.LIBRARY_PROPERTIES), sorted(nz.LIBRARY_SIGNATURES.items()), sys.version_info[:2])).encode())
         try:
             with open(os.path.join(os.path.dirname(here), 'vocab.json'), 'rb') as fh:
                 h.update(json.dumps(json.load(fh).get('_nested_baseline', {}), sort_keys=True).encode())
@@ -279,6 +291,7 @@ class Program(object):
         # self.grid.num_blocks in t2data ends in a property of t2grids)
         from . import normalise as _nz
         meths, props = set(), set()
+        raw_trees = []
         for name in MODULES:
             p = os.path.join(self.root, name + '.py')
             if not os.path.exists(p):
@@ -289,9 +302,11 @@ class Program(object):
                     with open(p, encoding='utf-8', errors='replace') as f: t = ast.parse(f.read())
                 m_, p_ = _nz._module_attr_kinds(t)
                 meths |= m_; props |= p_
+                raw_trees.append(t)
             except SyntaxError as e:
                 raise AnalysisError('module %s does not parse: %s' % (name, e))
         _nz.LIBRARY_METHODS, _nz.LIBRARY_PROPERTIES = meths, props
+        _nz.LIBRARY_SIGNATURES = _nz.library_signatures(raw_trees)
         for name in MODULES:
             p = os.path.join(self.root, name + '.py')
             try:
